@@ -1,0 +1,137 @@
+// SPDX-License-Identifier: Apache-2.0 OR MIT
+
+//! Verification hooks (compiled only with `--cfg fast_tlsh_verif`).
+//!
+//! Thin public wrappers around crate-private functions and tables so that an
+//! external harness can compare every compiled table and every compiled
+//! back end with a formal model.  Nothing here changes any behaviour.
+
+#![allow(missing_docs, clippy::missing_docs_in_private_items)]
+
+pub use crate::generate::verif::GeneratorStateAccess;
+
+/// Pearson hashing and the bucket mappings.
+pub mod pearson {
+    pub fn subst_table() -> &'static [u8; 256] {
+        &crate::pearson::SUBST_TABLE
+    }
+    pub fn init(value: u8) -> u8 {
+        crate::pearson::init(value)
+    }
+    pub fn update(state: u8, value: u8) -> u8 {
+        crate::pearson::update(state, value)
+    }
+    pub fn update_double(state: u8, b1: u8, b2: u8) -> u8 {
+        crate::pearson::update_double(state, b1, b2)
+    }
+    pub fn final_256(state: u8, value: u8) -> u8 {
+        crate::pearson::final_256(state, value)
+    }
+    pub fn final_48(state: u8, value: u8) -> u8 {
+        crate::pearson::final_48(state, value)
+    }
+    pub fn b_mapping_256(b0: u8, b1: u8, b2: u8, b3: u8) -> u8 {
+        crate::pearson::tlsh_b_mapping_256(b0, b1, b2, b3)
+    }
+    pub fn b_mapping_48(b0: u8, b1: u8, b2: u8, b3: u8) -> u8 {
+        crate::pearson::tlsh_b_mapping_48(b0, b1, b2, b3)
+    }
+}
+
+/// Hexadecimal codec primitives.
+pub mod hex_str {
+    pub fn decode_rev_1(src: &[u8]) -> Option<u8> {
+        crate::parse::hex_str::decode_rev_1(src)
+    }
+    pub fn decode_rev_array<const N: usize>(dst: &mut [u8; N], src: &[u8]) -> bool {
+        crate::parse::hex_str::decode_rev_array(dst, src)
+    }
+    pub fn encode_rev_1(dst: &mut [u8], value: u8) {
+        crate::parse::hex_str::encode_rev_1(dst, value)
+    }
+    pub fn encode_rev_array<const N: usize>(dst: &mut [u8], src: &[u8; N]) {
+        crate::parse::hex_str::encode_rev_array(dst, src)
+    }
+    /// `None` when the build uses `hex-simd` for this direction.
+    pub fn decode_1(src: &[u8]) -> Option<Option<u8>> {
+        cfg_if::cfg_if! {
+            if #[cfg(not(feature = "opt-simd-parse-hex"))] {
+                Some(crate::parse::hex_str::decode_1(src))
+            } else {
+                let _ = src;
+                None
+            }
+        }
+    }
+    /// `false` when the build uses `hex-simd` for this direction.
+    pub fn encode_array<const N: usize>(dst: &mut [u8], src: &[u8; N]) -> bool {
+        cfg_if::cfg_if! {
+            if #[cfg(not(feature = "opt-simd-convert-hex"))] {
+                crate::parse::hex_str::encode_array(dst, src);
+                true
+            } else {
+                let _ = (dst, src);
+                false
+            }
+        }
+    }
+}
+
+/// Distance primitives.
+pub mod compare {
+    pub use crate::compare::dist_body::verif as dist_body;
+
+    pub fn distance_on_ring_mod(x: u8, y: u8, n: u8) -> u8 {
+        crate::compare::utils::distance_on_ring_mod(x, y, n)
+    }
+    pub fn dist_length(l1: u8, l2: u8) -> u32 {
+        crate::compare::dist_length::distance(l1, l2)
+    }
+    pub fn dist_qratios(q1: u8, q2: u8) -> u32 {
+        crate::compare::dist_qratios::distance(q1, q2)
+    }
+    pub fn dist_checksum_1(c1: [u8; 1], c2: [u8; 1]) -> u32 {
+        crate::compare::dist_checksum::distance_1(c1, c2)
+    }
+    pub fn dist_checksum_3(c1: [u8; 3], c2: [u8; 3]) -> u32 {
+        crate::compare::dist_checksum::distance_3(c1, c2)
+    }
+}
+
+/// Bucket aggregation back ends.
+pub use crate::generate::bucket_aggregation::verif as bucket_aggregation;
+
+/// `cfg!()` facts about this build, for the harness to tell the model which
+/// branch of each `cfg_if!` ladder was compiled.
+pub fn build_config() -> &'static [(&'static str, bool)] {
+    &[
+        ("std", cfg!(feature = "std")),
+        ("alloc", cfg!(feature = "alloc")),
+        ("easy-functions", cfg!(feature = "easy-functions")),
+        ("detect-features", cfg!(feature = "detect-features")),
+        ("simd-per-arch", cfg!(feature = "simd-per-arch")),
+        ("unsafe", cfg!(feature = "unsafe")),
+        ("strict-parser", cfg!(feature = "strict-parser")),
+        ("serde", cfg!(feature = "serde")),
+        ("serde-buffered", cfg!(feature = "serde-buffered")),
+        ("opt-simd-body-comparison", cfg!(feature = "opt-simd-body-comparison")),
+        ("opt-simd-bucket-aggregation", cfg!(feature = "opt-simd-bucket-aggregation")),
+        ("opt-simd-parse-hex", cfg!(feature = "opt-simd-parse-hex")),
+        ("opt-simd-convert-hex", cfg!(feature = "opt-simd-convert-hex")),
+        ("opt-dist-length-table", cfg!(feature = "opt-dist-length-table")),
+        ("opt-dist-qratios-table", cfg!(feature = "opt-dist-qratios-table")),
+        ("opt-dist-qratios-table-double", cfg!(feature = "opt-dist-qratios-table-double")),
+        ("opt-pearson-table-double", cfg!(feature = "opt-pearson-table-double")),
+        ("opt-low-memory-buckets", cfg!(feature = "opt-low-memory-buckets")),
+        ("opt-low-memory-hex-str-decode-half-table", cfg!(feature = "opt-low-memory-hex-str-decode-half-table")),
+        ("opt-low-memory-hex-str-decode-quarter-table", cfg!(feature = "opt-low-memory-hex-str-decode-quarter-table")),
+        ("opt-low-memory-hex-str-decode-min-table", cfg!(feature = "opt-low-memory-hex-str-decode-min-table")),
+        ("opt-low-memory-hex-str-encode-half-table", cfg!(feature = "opt-low-memory-hex-str-encode-half-table")),
+        ("opt-low-memory-hex-str-encode-min-table", cfg!(feature = "opt-low-memory-hex-str-encode-min-table")),
+        ("target-avx2", cfg!(target_feature = "avx2")),
+        ("target-sse4.1", cfg!(target_feature = "sse4.1")),
+        ("target-ssse3", cfg!(target_feature = "ssse3")),
+        ("target-sse2", cfg!(target_feature = "sse2")),
+        ("debug-assertions", cfg!(debug_assertions)),
+    ]
+}
